@@ -129,6 +129,14 @@ def run(ctx: Ctx):
         elif o["rc2"] != 0:
             ctx.report("after a create session the tests fail with --inline-snapshot=disable", {"kind": "session", "source": p["source"], "after": o["after"], "output": o["tail2"]})
     ctx.coverage["oracle"]["session_pairs"] = len(sp)
+    # C2: the compared object is mutated afterwards (loops over one call site): what is created is what was compared
+    from . import c17
+    ms = [c17.gen_sched(ctx.rng, i) for i in range(18 if not ctx.thorough else 180)]
+    for s_, o in zip(ms, pmap(c17.run_sched, ms, chunksize=4)):
+        ctx.count(("mutation", s_["source"]), True)
+        why = c17.judge_sched(s_, o)
+        if why:
+            ctx.report("C01 oracle: the created value does not make the comparison hold that was observed: " + why, {"kind": "sched", "source": s_["source"], "op": s_["op"], "after": o.get("after")})
     # D: nested values: value_to_token vs Model/PyRepr.v (repr_toks), Python's parser vs the model's parser
     from .. import pyrepr
     from ..core import coq_eval_shards
@@ -161,6 +169,10 @@ def run(ctx: Ctx):
 
 
 def replay(ctx: Ctx, data):
+    if data["case"].get("kind") == "sched":
+        from . import c17
+        s_ = {"source": data["case"]["source"], "op": data["case"]["op"]}
+        return c17.judge_sched(s_, c17.run_sched(s_)) is None
     c = data["case"]
     if c.get("kind") == "prog":
         o = run_prog({"source": c["source"], "setup": c["setup"]})
